@@ -6,7 +6,6 @@ use skim::prelude::*;
 use std::io::{BufRead, Read, Write};
 use std::process::{Command, Stdio};
 use std::sync::mpsc;
-use std::sync::Once;
 use std::time::Duration;
 
 /// a `BufRead` whose `fill_buf` returns exactly the slices the case asks for
@@ -136,34 +135,22 @@ fn run_lib(c: Case) -> String {
     }
 }
 
-static BUILD_SK: Once = Once::new();
-static mut SK_OK: bool = false;
 
-fn repo() -> String {
-    std::env::var("VERIF_REPO").unwrap_or_else(|_| "/repo".to_string())
-}
-
-fn ensure_sk() -> bool {
-    BUILD_SK.call_once(|| {
-        // a debug build of `sk` dies in clap's own debug assertions; release it is
-        let st = Command::new("cargo")
-            .args(["build", "--release", "--offline", "--manifest-path"])
-            .arg(format!("{}/Cargo.toml", repo()))
-            .stdout(Stdio::null())
-            .stderr(Stdio::null())
-            .status();
-        unsafe {
-            SK_OK = matches!(st, Ok(s) if s.success());
-        }
-    });
-    unsafe { SK_OK }
+fn sk_bin() -> Option<String> {
+    // built by the runner (vlib/core.py build_sk: dev profile without debug assertions — a plain debug build of `sk`
+    // dies in clap's own debug assertions) and handed over in VERIF_SK_BIN
+    match std::env::var("VERIF_SK_BIN") {
+        Ok(p) if std::path::Path::new(&p).exists() => Some(p),
+        _ => None,
+    }
 }
 
 fn run_cli(c: Case) -> String {
-    if !ensure_sk() {
-        return "error:sk-release-build-failed".into();
-    }
-    let mut cmd = Command::new(format!("{}/target/release/sk", repo()));
+    let bin = match sk_bin() {
+        Some(b) => b,
+        None => return "error:sk-binary-not-built".into(),
+    };
+    let mut cmd = Command::new(bin);
     cmd.arg("-f").arg(&c.query);
     if c.term == 0 {
         cmd.arg("--read0");
